@@ -194,6 +194,7 @@ impl DimacsDoc {
         let mut out = Vec::new();
         {
             let mut w = DeferredWriter::from_write(&mut out);
+            crate::inputs::write_pad(&mut w);
             fn conv<L: Dimacs>(l: &[i64]) -> Vec<L> {
                 l.iter().map(|&x| L::from_dimacs(x as isize)).collect()
             }
@@ -245,7 +246,7 @@ impl DimacsDoc {
             }
             let _ = std::io::Write::flush(&mut w);
         }
-        out
+        crate::inputs::strip_pad(out)
     }
 }
 
@@ -279,10 +280,15 @@ fn ws(ch: &mut Choices, out: &mut Out, fancy: bool, at_least_one: bool) {
         0..=9 => at_least_one as usize,
         10..=12 => 1 + at_least_one as usize,
         13 => 3,
-        _ => 7,
+        14 => 7,
+        // right-aligned columns: runs of a word length and more
+        _ => 8 + ch.pick(12),
     };
     if n > 1 {
         out.feature("multi-space");
+    }
+    if n >= 8 {
+        out.feature("blank-run>=8");
     }
     for i in 0..n {
         if ch.chance(4) {
@@ -573,7 +579,7 @@ pub fn log_doc_strategy(lit: u8) -> impl Strategy<Value = LogDoc> {
 pub fn render_log(doc: &LogDoc, choices: &[u8], fancy: bool, junk: bool) -> Rendered {
     let mut ch = Choices::new(choices);
     let mut out = Out::new();
-    const JUNK: [&[u8]; 9] = [
+    const JUNK: [&[u8]; 12] = [
         b"",
         b"c",
         b"v",
@@ -583,6 +589,11 @@ pub fn render_log(doc: &LogDoc, choices: &[u8], fancy: bool, junk: bool) -> Rend
         b"\tindented",
         b"cc",
         b" v 1 2 0",
+        // indented look-alikes of solution and value lines (not lines of the log: they do not
+        // start with "s " / "v ")
+        b"  s UNSATISFIABLE",
+        b"\tv -1 -2 0",
+        b" s SATISFIABLE",
     ];
     fn fillers(ch: &mut Choices, out: &mut Out, fancy: bool, junk: bool) {
         if !fancy {
@@ -1067,7 +1078,9 @@ pub fn aig_doc_strategy(lit: u8, binary: bool) -> impl Strategy<Value = AigDoc> 
                     // mostly 0..=2 conditions; sometimes more than a u8 / (rarely) a u16 can count
                     let n = match pick(2000) {
                         0 => 65536 + pick(3),
-                        1..=60 => 250 + pick(20),
+                        1..=50 => 250 + pick(20),
+                        // (more than any fixed pre-allocation cap of a few hundred entries)
+                        51..=60 => 1020 + pick(12),
                         _ => pick(3),
                     } as usize;
                     lits(n, &mut pick)
